@@ -1243,3 +1243,20 @@ V("dec-c20-defaults-dict-updated-in-place", "C20", "fire", NO, "import numpy as 
   what="explicit arguments of one call become the defaults of the next")
 V("dec-c20-silent-defaults-dict-copied", "C20", "silent", NO, "import numpy as np\n", _DESCR % "dict(defaults)", more=_NO_FACT,
   what="the defaults are copied before the call's arguments are merged in")
+
+for _i in [1, 2, 3, 4, 5, 6, 7, 8, 10, 11, 12, 13, 14, 15, 16, 17, 18, 19, 20]:
+    VARIANTS.append(dict(id="kwonly-signatures-c%02d" % _i, prop="C%02d" % _i, expect="silent", rule=None, edits=[("@kwonly",)],
+                         what="every defaulted parameter made keyword-only (def f(a, *, b=1)), call sites re-spelled with keywords"))
+V("dyn-c01-class-decorator", "C01", "fire", LG, "class LGANM:", "def _registered(cls):\n    cls.sample = cls.sample\n    return cls\n\n\n@_registered\nclass LGANM:",
+  rule=None, what="a class decorator on the model class (could replace its methods): outside the modelled subset", accept_inconclusive=True)
+V("dyn-c13-class-decorator-unrelated", "C13", "silent", UT, "def sorted_tuple(", "def _noop(cls):\n    return cls\n\n\n@_noop\nclass _Helper:\n    pass\n\n\ndef sorted_tuple(",
+  what="a decorated class nobody analyses")
+V("dyn-c03-monkeypatched-function", "C03", "fire", LG, "class LGANM:", "utils.is_dag = lambda A: True\n\n\nclass LGANM:", rule=None,
+  what="another module replaces utils.is_dag at import time", accept_inconclusive=True)
+VARIANTS.append(dict(id="dyn-c13-method-replaced-after-class", prop="C13", expect="fire", rule=None, accept_inconclusive=True,
+                     edits=[("@newfile", "sempler/_patches.py", "import sempler.anm\n\n_orig = sempler.anm.ANM.sample\n\n\ndef _sample(self, *args, **kwargs):\n    return _orig(self, *args, **kwargs)\n\n\nsempler.anm.ANM.sample = _sample\n")],
+                     what="a method replaced by assignment from another module (monkeypatch)"))
+V("dyn-c17-function-rebound-at-module-level", "C17", "fire", UT, "def sorted_tuple(", "split_data = (lambda f: f)(split_data)\n\n\ndef sorted_tuple(", rule=None,
+  what="decorator applied by assignment: the name no longer refers to the definition", accept_inconclusive=True)
+V("dyn-c17-silent-unrelated-rebinding", "C17", "silent", UT, "def sorted_tuple(", "add_edges = (lambda f: f)(add_edges)\n\n\ndef sorted_tuple(",
+  what="a function this check never analyses is rebound")
